@@ -15,6 +15,7 @@ import (
 	"strconv"
 	"strings"
 	"testing"
+	"testing/iotest"
 
 	"github.com/gookit/rux"
 	"github.com/gookit/rux/pkg/binding"
@@ -191,7 +192,20 @@ func prop(t *rapid.T) {
 	if garbage {
 		body = rapid.SliceOfN(rapid.Byte(), 0, 40).Draw(t, "bytes")
 	}
-	req := httptest.NewRequest(method, "/x?"+values(pQuery).Encode(), bytes.NewReader(body))
+	// how the body arrives: at once, or in pieces (a real connection delivers large bodies in several reads)
+	var bodyReader io.Reader = bytes.NewReader(body)
+	readerKind := rapid.SampledFrom([]string{"whole", "whole", "one-byte", "half", "data-with-EOF"}).Draw(t, "bodyReader")
+	switch readerKind {
+	case "one-byte":
+		bodyReader = iotest.OneByteReader(bodyReader)
+	case "half":
+		bodyReader = iotest.HalfReader(bodyReader)
+	case "data-with-EOF":
+		bodyReader = iotest.DataErrReader(bodyReader)
+	}
+	ev.Class("body-reader:" + readerKind)
+	req := httptest.NewRequest(method, "/x?"+values(pQuery).Encode(), bodyReader)
+	req.ContentLength = int64(len(body))
 	if ct != "" {
 		req.Header.Set("Content-Type", ct)
 	}
